@@ -584,6 +584,16 @@ func c15Gen(r *kit.Rng) *c15Scenario {
 	paths := t.AllPaths()
 	if len(paths) > 0 && r.Chance([]int{6, 1, 1}[size], 8) {
 		sc.At = paths[r.Intn(len(paths))]
+		// a start selection held by a case: its schema parent is not its data parent
+		var inCase []model.Path
+		for _, p := range paths {
+			if loc, ok := t.Resolve(p); ok && loc.S != nil && loc.S.Parent != nil && loc.S.Parent.Kind == schema.Case {
+				inCase = append(inCase, p)
+			}
+		}
+		if len(inCase) > 0 && r.Chance(1, 3) {
+			sc.At = inCase[r.Intn(len(inCase))]
+		}
 	}
 	if loc, ok := t.Resolve(sc.At); ok && loc.Tree != nil && r.Chance(1, 5) {
 		var leaves []string
